@@ -318,6 +318,7 @@ def handle (op : String) (args res : List String) : Option Verdict :=
            else .ok
        | _, _, _, _, _, _ => .bad "parse")
     | _, _ => .bad "parse"
+  | "geoidhuge" => some (.skip "dimensions above 2^30: judged by the harness (child process under the sanitizers)")
   | "geoidcubic" => some (.skip "reproduction of cubic rasters is judged by the harness on the implementation (theorem cubic_reproduces for the table)")
   | "geoidbil" => some (.skip "bilinear node/edge/continuity laws are judged by the harness on the implementation")
   | _ => none
